@@ -170,7 +170,9 @@ func randColor(rng *gen.Rng) vaxis.Color {
 	}
 }
 
-var links = [][2]string{{"", ""}, {"", ""}, {"http://a", ""}, {"http://a", "id=1"}, {"http://b", "id=2"}, {"", "id=9"}, {"http://c/v;s=4?x=1", "id=3"}}
+var links = [][2]string{{"", ""}, {"", ""}, {"http://a", ""}, {"http://a", "id=1"}, {"http://b", "id=2"}, {"", "id=9"}, {"http://c/v;s=4?x=1", "id=3"},
+	// F112b: a ';' inside the parameter string (the OSC 8 parameter field ends at the first ';')
+	{"http://d", "a;b"}, {"http://d", ";id=5"}, {"http://a", "id=1;"}}
 
 func randStyle(rng *gen.Rng, r *hx.Run) vaxis.Style {
 	if rng.Chance(1, 4) {
@@ -387,7 +389,8 @@ func scenario(r *hx.Run, rng *gen.Rng, id string, w, h int, rgb, su, ew, sync bo
 
 // corpusStyles are the styles a corpus scenario can name by index.
 var corpusStyles = []vaxis.Style{{}, {Foreground: vaxis.IndexColor(1), Hyperlink: "http://a"},
-	{Attribute: vaxis.AttrBold, Background: vaxis.RGBColor(1, 2, 3), Hyperlink: "http://a"}, {Foreground: vaxis.IndexColor(1)}}
+	{Attribute: vaxis.AttrBold, Background: vaxis.RGBColor(1, 2, 3), Hyperlink: "http://a"}, {Foreground: vaxis.IndexColor(1)},
+	{Hyperlink: "http://d", HyperlinkParams: "a;b"}, {Hyperlink: "http://d", HyperlinkParams: "a"}}
 
 // corpus replays one minimised past failure (corpus/C01/*.ops). Lines:
 //
